@@ -71,7 +71,7 @@ def check_lookups(rep, prog):
     allowed_keys = {Op("m:lower", m), Op("m:lower", sid), Op("m:lower", rid), Op("str", bit), Op("str", attn), Op("str", inst)}
     n = 0
     for fn, r in results.items():
-        chains = [x for x in walk(r) if isinstance(x, Op) and x.op == "getitem" and any(y == CD for y in walk(x))]
+        chains = [x for x in walk(r) if isinstance(x, Op) and x.op in ("getitem", "m:get", "dictget") and any(y == CD for y in walk(x.args[0]))]
         for x in chains:
             key = x.args[1]
             if isinstance(key, Const):
@@ -82,13 +82,13 @@ def check_lookups(rep, prog):
                       "strings, so an upper-case word (as in SRC words) or a raw number never matches and the name is lost" % (fn, key))
         # fallback: each lookup sits under an exception flag alternative
         tops = [x for x in walk(r) if isinstance(x, Ite) and isinstance(x.c, Sym) and x.c.kind == "exc"]
-        covered = all(any(ch in list(walk(t.b)) for t in tops) for ch in chains) if chains else True
+        covered = all((ch.op != "getitem" and len(ch.args) >= 3) or any(ch in list(walk(t.b)) for t in tops) for ch in chains) if chains else True
         rep.check(covered and bool(chains), rule, "%s: every chip-data lookup has a fallback to the raw numbers" % fn, PD + "." + fn, "except KeyError",
                   "%s has a chip-data lookup without a fallback: missing data raises instead of showing the raw numbers" % fn)
     hs = [e for e in I.events if e.kind == "handler" and e.func.startswith(PD + ".get_")]
-    rep.check(bool(hs) and all(h.data[1] in ("KeyError", "LookupError", "(KeyError, IndexError)", "(KeyError, IndexError, TypeError)", "Exception") for h in hs), rule,
+    rep.check(not hs or all(h.data[1] in ("KeyError", "LookupError", "(KeyError, IndexError)", "(KeyError, IndexError, TypeError)", "Exception") for h in hs), rule,
               "fallback handlers catch KeyError", PD, "except KeyError", "fallback handlers catch %s" % sorted({h.data[1] for h in hs}))
-    rep.floor("chip-data lookups", n, 8)
+    rep.floor("chip-data lookups", n, 6)
     # argument validation must accept the whole value range of each field (a decode must never fail on 0xFF / 0xFFFF)
     I2 = Interpreter(prog)
     pr2 = mk_pd(I2, prog)
